@@ -18,7 +18,8 @@ LEVEL_TEXT = ('Generated Linen module programs (compact and setup style, nesting
               ' collections, init/apply on bound / unbound / re-wrapped module objects with attribute sub-modules,'
               ' variables whose value is a caller-owned dict, sow names that coincide with variable names.'
               ' Round f: dict-subclass (OrderedDict / defaultdict) values in the dict-valued variable stream.'
-              " Round g: capture_denylist (capture_intermediates with a DenyList naming 'intermediates' and other collections).")
+              " Round g: capture_denylist (capture_intermediates with a DenyList naming 'intermediates' and other collections)."
+              ' Round h: perturb_dtypes (perturb on non-float32 values and pytrees with a fresh perturbation collection; K15 negative zero).')
 LEVEL_NOTE = ('Array leaves are immutable JAX arrays and are shared between input and output by design (not flagged). User code reaching '
               'into module.variables and mutating it is outside the property.')
 TECHNIQUE = 'runtime monitoring: snapshot contract + write-event log vs reference mutability predicate + poisoning/aliasing probe on the real init/apply'
